@@ -53,13 +53,19 @@ Theorem C06_valset_order_free :
 Proof. exact update_order_free. Qed.
 Print Assumptions C06_valset_order_free.
 
-(** calculateValidatorSetUpdates + UpdateWithChangeSet: the order in which the application
-    reports its validators (pairwise distinct addresses) does not matter ... *)
+(** calculateValidatorSetUpdates + UpdateWithChangeSet (code as repaired by 530b44a): the order
+    in which the application reports its validators does not matter, for ANY report ... *)
 Theorem C06_reported_order_free :
-  forall s vals vals', NoDup (map v_addr vals) -> Permutation vals vals' ->
-    apply_reported s vals = apply_reported s vals'.
+  forall s vals vals', Permutation vals vals' -> apply_reported s vals = apply_reported s vals'.
 Proof. exact apply_reported_order_free. Qed.
 Print Assumptions C06_reported_order_free.
+
+(** ... a report that lists an address twice being rejected in every order (before the repair
+    one order could be accepted and another rejected; found by this check) *)
+Theorem C06_reported_duplicates_rejected :
+  forall s vals, ~ NoDup (map v_addr vals) -> apply_reported s vals = UpdErr.
+Proof. exact apply_reported_dup_rejected. Qed.
+Print Assumptions C06_reported_duplicates_rejected.
 
 (** ... nor does the order in which `for valAddr := range last` emits the removals (any
     permutation of the computed change set) *)
@@ -68,16 +74,6 @@ Theorem C06_removal_order_free :
     update s cs = apply_reported s vals.
 Proof. exact apply_changes_order_free. Qed.
 Print Assumptions C06_removal_order_free.
-
-(** The sentence "does not depend on the order in which the application reports validators" is
-    FALSE for a report that repeats an address (calculateValidatorSetUpdates deletes the key
-    after the first visit): one order is accepted, the other rejected. *)
-Theorem C06_reported_order_duplicates_refuted :
-  Permutation [rep 10 10; rep 10 7; rep 20 5] [rep 10 7; rep 10 10; rep 20 5] /\
-  apply_reported ex_set [rep 10 10; rep 10 7; rep 20 5] <> apply_reported ex_set [rep 10 7; rep 10 10; rep 20 5] /\
-  apply_reported ex_set [rep 10 7; rep 10 10; rep 20 5] = UpdErr.
-Proof. exact dup_report_order_dependent. Qed.
-Print Assumptions C06_reported_order_duplicates_refuted.
 
 (** (c) Receipts, gas used and bloom are a function of the list of per-transaction results in
     which rejected transactions leave no trace ... *)
